@@ -228,7 +228,7 @@ def val_eq(I, x, y):
     if isinstance(x, SetObj) and isinstance(y, SetObj):
         raise Unsupported('HashSet equality')
     if isinstance(x, Opaque) and isinstance(y, Opaque) and x.kind == 'instant' and y.kind == 'instant':
-        return b_and([b_eq(x.secs, y.secs), b_eq(getattr(x, 'frac', False), getattr(y, 'frac', False))])
+        return b_and([b_eq(x.secs, y.secs), b_eq(getattr(x, 'frac', False), getattr(y, 'frac', False)), b_eq(getattr(x, 'nanos', 0), getattr(y, 'nanos', 0))])
     if isinstance(x, (bool, int)) or is_sym(x):
         return b_eq(x, y)
     raise Unsupported(f'val_eq {type(x).__name__} {type(y).__name__}')
@@ -263,6 +263,12 @@ def default_val(I, ty):
         return 0
     if ty == 'bool':
         return False
+    if ty in ('&str', 'str'):
+        return cstr('')
+    if ty.startswith('std::option::Option'):
+        return NONE()
+    if ty.startswith(('std::collections::HashSet', 'std::collections::hash::set::HashSet')):
+        return SetObj([])
     raise Unsupported('Default for ' + ty)
 
 
@@ -2580,19 +2586,29 @@ def _(I, a):
 
 # ---------------- chrono stub (DESIGN.md §4.4) -----------------
 def instant_rel(I, x, y, meth):
-    """order of two instants (secs, frac): frac marks 'strictly between secs and secs+1' (leap second)"""
+    """order of two instants (secs, frac, nanos): frac marks a leap second (secs + 10^9 ns + nanos), nanos the sub-second part"""
     a, b = x.secs, y.secs
     fa, fb = getattr(x, 'frac', False), getattr(y, 'frac', False)
-    if not any(is_sym(v) for v in (a, b, fa, fb)):
-        ka, kb = (a, bool(fa)), (b, bool(fb))
+    na, nb = getattr(x, 'nanos', 0), getattr(y, 'nanos', 0)
+    if not any(is_sym(v) for v in (a, b, fa, fb, na, nb)):
+        ka, kb = (a, bool(fa), na), (b, bool(fb), nb)
         return {'lt': ka < kb, 'le': ka <= kb, 'gt': ka > kb, 'ge': ka >= kb}[meth]
     za = a if is_sym(a) else z3.BitVecVal(a, 64)
     zb = b if is_sym(b) else z3.BitVecVal(b, 64)
     bf = lambda v: v if is_sym(v) else z3.BoolVal(bool(v))
-    if fa is False and fb is False:
+    nanos0 = (not is_sym(na) and na == 0) and (not is_sym(nb) and nb == 0)
+    if fa is False and fb is False and nanos0:
         return {'lt': za < zb, 'le': za <= zb, 'gt': za > zb, 'ge': za >= zb}[meth]
-    lt = z3.Or(za < zb, z3.And(za == zb, z3.Not(bf(fa)), bf(fb)))
-    eq = z3.And(za == zb, bf(fa) == bf(fb))
+    if nanos0:
+        lt = z3.Or(za < zb, z3.And(za == zb, z3.Not(bf(fa)), bf(fb)))
+        eq = z3.And(za == zb, bf(fa) == bf(fb))
+    else:
+        zn = lambda v: (z3.ZeroExt(64 - v.size(), v) if v.size() < 64 else v) if is_sym(v) else z3.BitVecVal(v, 64)
+        # sub-second key = leap * 10^9 + nanos
+        ka = z3.If(bf(fa), z3.BitVecVal(10 ** 9, 64), z3.BitVecVal(0, 64)) + zn(na)
+        kb = z3.If(bf(fb), z3.BitVecVal(10 ** 9, 64), z3.BitVecVal(0, 64)) + zn(nb)
+        lt = z3.Or(za < zb, z3.And(za == zb, z3.ULT(ka, kb)))
+        eq = z3.And(za == zb, ka == kb)
     return {'lt': lt, 'le': z3.Or(lt, eq), 'gt': z3.Not(z3.Or(lt, eq)), 'ge': z3.Not(lt)}[meth]
 
 
@@ -3108,6 +3124,49 @@ def _(I, a):
 @model('std::collections::HashMap::len')
 def _(I, a):
     return len(deref(a[0]).items)
+
+
+# Entry API: an entry is (map, key, the [key, value] cell or None)
+@model('std::collections::HashMap::entry')
+def _(I, a):
+    m = deref(a[0])
+    for ent in m.items:
+        if I.branch(val_eq(I, ent[0], a[1])):
+            return Opaque('map_entry', map=m, key=a[1], cell=ent)
+    return Opaque('map_entry', map=m, key=a[1], cell=None)
+
+
+def _entry_or(I, e, mk):
+    if e.cell is None:
+        e.cell = [e.key, mk()]
+        e.map.items.append(e.cell)
+    return Ref(Slot(e.cell, 1))
+
+
+@model('std::collections::hash_map::Entry::or_insert', 'std::collections::hash_map::Entry::<K, V>::or_insert')
+def _(I, a):
+    return _entry_or(I, a[0], lambda: a[1])
+
+
+@model('std::collections::hash_map::Entry::or_insert_with')
+def _(I, a):
+    return _entry_or(I, a[0], lambda: I.call_closure(a[1], []))
+
+
+@model('std::collections::hash_map::Entry::or_default')
+def _(I, a):
+    e = a[0]
+    if e.cell is None:
+        raise Unsupported('Entry::or_default on a vacant entry (value type unknown here)')
+    return Ref(Slot(e.cell, 1))
+
+
+@model('std::collections::hash_map::Entry::and_modify')
+def _(I, a):
+    e = a[0]
+    if e.cell is not None:
+        I.call_closure(a[1], [Ref(Slot(e.cell, 1))])
+    return e
 
 
 @model('std::collections::HashMap::is_empty')
